@@ -1,4 +1,5 @@
 import Gearpy.Proofs.Grid
+import Gearpy.Properties.C16
 /-!
 # C12 — continuation and reset/rerun reproduce the same history
 
@@ -7,6 +8,8 @@ import Gearpy.Proofs.Grid
   flag), from an empty or non-empty history alike; `run_split_units`: the continuation may express
   `dt` and `T` in another time unit — the instants it appends have the same SI values
   (`gridU_si` + `nSteps_si`).
+* `stop_then_continue`: a continued run ended early by a stop condition after `k ≥ 1` of its `n` steps and then
+  continued for the remaining `n − k` steps ends in the same state as one uninterrupted run of `n` steps.
 * `rerun_eq`: after `reset` and re-applying the initial conditions, a schedule that starts with a
   run reproduces, record for record, what it produces from freshly built objects — for the same
   solver object and for a new one (the run clears the lock flag when the time axis is empty),
@@ -52,6 +55,53 @@ theorem run_split (c : Cfg) (dt : Q) (n1 n2 : Nat) (s : St) (hn : 0 < n1) :
         simp only
         have := loop_lastTime c dt _ s0 s1 (by unfold grid; simp [List.range_succ]) h1
         rw [this, grid_getLast]
+
+theorem grid_getLast_eq (t0 dt : Q) (k : Nat) (hk : 0 < k) :
+    (grid t0 dt k).getLast? = some (t0 + (k : Q) * dt) := by
+  obtain ⟨j, rfl⟩ : ∃ j, k = j + 1 := ⟨k - 1, by omega⟩
+  rw [grid_getLast]
+
+/-- the loop over a grid, ended early by a stop condition after `k ≥ 1` of its `n` points and then continued
+    over the remaining points, ends where the uninterrupted loop ends -/
+theorem loop_stop_then_continue (c : Cfg) (dt : Q) (f : Rec → Bool) (t0 : Q) (n : Nat) (s s1 : St)
+    (h : loop c dt (some f) (grid t0 dt n) s = .ok s1) :
+    ∃ k, k ≤ n ∧ loop c dt none (grid t0 dt k) s = .ok s1 ∧
+      loop c dt none (grid (t0 + (k : Q) * dt) dt (n - k)) s1 = loop c dt none (grid t0 dt n) s := by
+  obtain ⟨us, vs, hts, hl, _, _⟩ := C16.stop_prefix c dt f _ s s1 h
+  have hlen : us.length + vs.length = n := by
+    have := congrArg List.length hts
+    simpa [grid_length] using this.symm
+  refine ⟨us.length, by omega, ?_, ?_⟩
+  · have hg := grid_append t0 dt us.length (n - us.length)
+    rw [show us.length + (n - us.length) = n by omega] at hg
+    have := List.append_inj (hts.symm.trans hg) (by simp [grid_length])
+    rw [← this.1]; exact hl
+  · have hg := grid_append t0 dt us.length (n - us.length)
+    rw [show us.length + (n - us.length) = n by omega] at hg
+    have hsplit := List.append_inj (hts.symm.trans hg) (by simp [grid_length])
+    rw [hg, loop_append, ← hsplit.1, hl]
+
+/-- C12 with an early stop (continued runs): a run of `n` steps ended by a stop condition after `k ≥ 1` steps,
+    then continued for the remaining `n − k` steps with the same time step, ends in the same state — records,
+    time axis, live attributes, lock flag — as one uninterrupted run of `n` steps -/
+theorem stop_then_continue (c : Cfg) (dt : Q) (f : Rec → Bool) (n : Nat) (s s1 : St) (t0 : Q)
+    (hl : lastTime s = some t0) (h : run c dt n (some f) s = .ok s1) :
+    ∃ k, k ≤ n ∧ s1.recs.length = s.recs.length + k ∧
+      (0 < k → run c dt (n - k) none s1 = run c dt n none s) := by
+  unfold run at h
+  simp only [hl] at h
+  obtain ⟨k, hk, hpre, hcont⟩ := loop_stop_then_continue c dt f t0 n s s1 h
+  refine ⟨k, hk, ?_, ?_⟩
+  · have := loop_times c dt _ s s1 hpre
+    have := congrArg List.length this
+    simpa [grid_length] using this
+  · intro hpos
+    have hlast : lastTime s1 = some (t0 + (k : Q) * dt) := by
+      rw [loop_lastTime c dt _ s s1 (by intro hh; have := congrArg List.length hh; simp [grid_length] at this; omega) hpre]
+      exact grid_getLast_eq t0 dt k hpos
+    unfold run
+    simp only [hlast, hl]
+    exact hcont
 
 /-- the instants appended by a continuation do not depend on the unit `dt`, `T` and the previous
     final instant are expressed in: two unit-carrying descriptions with equal SI magnitudes give
